@@ -18,6 +18,7 @@ FID = 'F-PY-ARRELEM'
 FID_WRAP = 'F-PY-ARRWRAP'
 FID_FPREC = 'F-PY-ARRWRAP-FPREC'
 FID_NUM = 'F-PY-NUMTEXT'
+FID_INFER = 'F-PY-PRECHECK-INFER'
 
 MANIFEST = dict(
     technique='Coq proof (induction over operation sequences) about a hand model of the generated Python classes whose template facts and '
@@ -31,6 +32,10 @@ MANIFEST = dict(
          'storage-level contract survives and the DSDL element range of non-standard-width integer arrays is refuted by witness (the setter '
          'aliases exactly on the same-dtype fast path, proved); a raising setter leaves the object unchanged; scalar/length checks are exact '
          '(fact read-back of the scanner); a foreign-dtype ndarray is stored unchanged and within the field range (F-PY-ARRWRAP fixed); '
+         'REJECT direction: for every array field and candidate value assign_array (with the facts of all fixes) stores a contract-satisfying '
+         'value or raises, and raises exactly when the decidable `arr_accepts` is false (bytes for ALL texts, text for arrays without a bytes '
+         'branch, float16/32 elements beyond the maximum); the landed fixes are REQUIRED by C18_fix_flags_live, the two open ones are recorded in '
+         'C18_open_findings_state (flip when they land); '
          'to_builtin -> update_from_builtin reproduces every object (all types), f_round is idempotent so this composes with histories; '
          '`restore (filter_pickle m) = m` under explicit library laws; pick_width picks the least standard width.  Statements about earlier '
          'code states are in coq/theories/History/C18_history.v.  Tie: pick_width is translated, base.j2 is scanned (15 structural facts), '
@@ -61,7 +66,7 @@ PROBE_FILES = {
     'c18p/D.1.0.dsdl': 'uint7[<=2] x\nE.1.0 e\n@extent 64 * 8\n',
     'c18p/S.1.0.dsdl': ('bool flag\nuint4 n4\ntruncated uint4 t4\nint12 i12\nuint64 u64\nint64 i64\nfloat16 f16\nfloat32 f32\nfloat64 f64\n'
                         'uint4[<=3] va4\nuint8[<=4] va8\nutf8[<=5] s\nbyte[3] fb\nint5[2] fi5\nfloat16[<=2] vf16\nfloat32[2] ff32\nfloat64[<=2] vf64\n'
-                        'bool[<=5] vb\nint16[<=3] vi16\nuint17[<=2] vu17\nInner.1.0 inner\nInner.1.0[2] fin\nU.1.0[<=2] vu\nU.1.0 u\nvoid3\nD.1.0 d\n'
+                        'bool[<=5] vb\nint16[<=3] vi16\nuint17[<=2] vu17\nuint64[<=3] vu64\nInner.1.0 inner\nInner.1.0[2] fin\nU.1.0[<=2] vu\nU.1.0 u\nvoid3\nD.1.0 d\n'
                         '@extent 2048 * 8\n'),
     # the same short name and version in two namespaces (class lookup by model must keep them apart)
     'c18p/geo/Point.1.0.dsdl': 'int8 x\nint8 y\n@sealed\n',
@@ -1047,6 +1052,32 @@ def has_fprec_value(x) -> bool:
     return False
 
 
+def has_infer_value(x) -> bool:
+    """a list literal that numpy.asarray infers as float64 although it holds exact Python ints: an element within 1024 of 2**64 next to
+    an int64-class element (or a float / bool): the trigger of F-PY-PRECHECK-INFER (valid uint64 lists rejected)"""
+    if isinstance(x, dict):
+        l = x.get('l')
+        if isinstance(l, list) and all(isinstance(e, dict) or isinstance(e, bool) for e in l):
+            big = [e for e in l if isinstance(e, dict) and 'i' in e and 2 ** 64 - 1024 <= int(e['i']) <= 2 ** 64 - 1]
+            small = [e for e in l if isinstance(e, bool) or (isinstance(e, dict) and ('f' in e or ('i' in e and int(e['i']) < 2 ** 63)))]
+            if big and small:
+                return True
+        return any(has_infer_value(v) for v in x.values())
+    if isinstance(x, list):
+        return any(has_infer_value(v) for v in x)
+    return False
+
+
+def state_has_infer(state: str) -> bool:
+    """a uint64 array of the printed state whose to_builtin() list numpy.asarray would infer as float64 with a rounded-up maximum"""
+    import re as _re
+    for grp in _re.findall(r'\(a u64([^()]*)\)', state):
+        vals = [int(t[1:]) for t in grp.split() if t.startswith('i')]
+        if any(v >= 2 ** 64 - 1024 for v in vals) and any(v < 2 ** 63 for v in vals):
+            return True
+    return False
+
+
 def probe_cases(m: MDB) -> typing.List[typing.Tuple[dict, typing.List[dict]]]:
     """directed cases on the hand-written namespace c18p (witnesses of the known finding first)"""
     s = m.index['c18p.S.1.0']
@@ -1064,6 +1095,7 @@ def probe_cases(m: MDB) -> typing.List[typing.Tuple[dict, typing.List[dict]]]:
         one(s, [{'set': fi['va8'], 'x': {'nd': 'i64', 'e': [lit(vi(256)), lit(vi(1))]}}], [('reject', ['arrwrap', 'witness'])]),   # index 1: F-PY-ARRWRAP
         one(s, [{'set': fi['vi16'], 'x': {'nd': 'f16', 'e': [lit(vf(32768.0)), lit(vf(1.0))]}}], [('reject', ['arrwrap', 'arrwrap_fprec', 'witness'])]),  # index 2
         one(s, [{'set': fi['va8'], 'x': lit(vy(b'00123'))}], [('reject', ['numtext', 'arr_bytes', 'arr_over_capacity', 'witness'])]),   # index 3: F-PY-NUMTEXT
+        one(s, [{'set': fi['vu64'], 'x': L(0, 2 ** 64 - 1)}], [('accept', ['arr_len_legal', 'witness'])]),                      # index 4: F-PY-PRECHECK-INFER
         one(s, [{'set': fi['fb'], 'x': lit(vy(b'12'))}, {'set': fi['s'], 'x': lit(vs('0000123'))}, {'set': fi['vi16'], 'x': lit(vs('12'))},
                 {'set': fi['vf16'], 'x': lit(vy(b'2.5'))}, {'set': fi['vb'], 'x': lit(vs('0'))}, {'set': fi['va8'], 'x': lit(vy(b'12'))},
                 {'set': fi['s'], 'x': lit(vs('12345'))}, {'set': fi['n4'], 'x': lit(vs(' 1_0 '))}, {'set': fi['f32'], 'x': lit(vy(b'1e3'))},
@@ -1148,6 +1180,7 @@ def run_namespace(label: str, spec: dict, seed: int, n_cases: int, repo: str, ex
         impl_doc = json.loads(q.stdout)
         impl, impl_defaults = impl_doc['out'], impl_doc['defaults']
         res['alias_bad'], res['alias_checked'] = impl_doc.get('alias_bad', []), impl_doc.get('alias_checked', 0)
+        res['path_bad'] = impl_doc.get('path_bad', [])
     except Exception:
         res['errors'].append('impl harness failed: rc=%s %s' % (q.returncode, (q.stderr or q.stdout)[-800:]))
         return res
@@ -1162,6 +1195,8 @@ def run_namespace(label: str, spec: dict, seed: int, n_cases: int, repo: str, ex
         res['witness'] = bool(w.get('steps') and w['steps'][0][0] == 'ok' and 'i200' in w['steps'][0][1])
         w2 = impl[1]
         res['witness_wrap'] = bool(w2.get('steps') and w2['steps'][0][0] == 'ok')      # uint8[<=4] = np.array([256, 1], int64) accepted
+        w5 = impl[4]
+        res['witness_infer'] = bool(w5.get('steps') and w5['steps'][0][0] != 'ok')    # uint64[<=3] = [0, 2**64-1] rejected
         w4 = impl[3]
         res['witness_num'] = bool(w4.get('steps') and w4['steps'][0][0] == 'ok')      # uint8[<=4] = b'00123' accepted (stores [123])
         w3 = impl[2]
@@ -1173,7 +1208,7 @@ def run_namespace(label: str, spec: dict, seed: int, n_cases: int, repo: str, ex
 
 
 def finish_namespace(res: dict, exe: typing.Optional[str], quirk: bool, wrap_live: bool = False, fprec_live: bool = False,
-                     num_live: bool = False) -> None:
+                     num_live: bool = False, infer_live: bool = False) -> None:
     """model run (needs the probed quirk) and all comparisons"""
     m, cases, impl, impl_defaults = res.pop('_pending')
     convs, conv_impl = res.pop('_convs', ([], []))
@@ -1239,6 +1274,13 @@ def finish_namespace(res: dict, exe: typing.Optional[str], quirk: bool, wrap_liv
             agrees = True
             fprec_hit = fprec_live and ('arrwrap_fprec' in ex['tags'] or has_fprec_value(case['ops'][k])) and (
                 outcome == 'ok' or (mdl is not None and k < len(mdl['steps']) and mdl['steps'][k][1] != state))
+            infer_hit = infer_live and has_infer_value(case['ops'][k]) and outcome != 'ok' and (
+                mdl is not None and k < len(mdl['steps']) and mdl['steps'][k][0] == 'ok')
+            if infer_hit:
+                # instance of F-PY-PRECHECK-INFER: the model (exact values) accepts the valid list, the classes reject it
+                res['known_instances'] += 1
+                bump('known_infer_instances')
+                break
             if fprec_hit:
                 # instance of F-PY-ARRWRAP-FPREC: the model (exact comparison = the proposed fix) rejects, the classes accept and wrap;
                 # the states differ from here on, the rest of this case is not compared
@@ -1287,7 +1329,8 @@ def finish_namespace(res: dict, exe: typing.Optional[str], quirk: bool, wrap_liv
         bump('ser_' + str(im.get('ser', im.get('ser_exc', 'n/a'))).split(' ')[0])
         final = steps[-1][1] if steps else impl_defaults[case['tid']]
         foreign = any(c == 'elem_foreign' for c, _ in contract_problems(m, parse_state(final), case['tid'])) if not final.startswith('?') else True
-        if mdl is not None and mdl['rt'].split(' ')[0] != rt.split(' ')[0] and not foreign:
+        if mdl is not None and mdl['rt'].split(' ')[0] != rt.split(' ')[0] and not foreign and not (
+                infer_live and rt.startswith('raises') and state_has_infer(steps[-1][1] if steps else '')):
             res['mismatch'].append({'what': 'builtin round trip', 'case': case, 'model': mdl['rt'][:300], 'impl': rt[:300], 'type': m.order[case['tid']]})
         strict_bad = (not final.startswith('?')) and any(c == 'elem_range' for c, _ in contract_problems(m, parse_state(final), case['tid']))
         if im.get('model_attr') is not True:
@@ -1302,10 +1345,16 @@ def finish_namespace(res: dict, exe: typing.Optional[str], quirk: bool, wrap_liv
                                       'case': case, 'impl': [rt[:100], final[:600]], 'type': m.order[case['tid']]})
         if tainted and strict_bad:
             bump('rt_skipped_inplace')
+        elif infer_live and rt.startswith('raises') and state_has_infer(final):
+            res['known_instances'] += 1
+            bump('known_infer_instances')
         elif not foreign and (rt != 'same' or im.get('ser', 'same') != 'same'):
             res['oracle'].append({'class': 'builtin_round_trip', 'detail': '%s / serialization %s' % (rt[:200], im.get('ser')), 'case': case,
                                   'impl': [rt[:300], final[:600]], 'type': m.order[case['tid']]})
     bump('alias_checked', res.get('alias_checked', 0))
+    bump('model_source_path_checked', len(m.order))
+    for a in res.get('path_bad', []):
+        res['oracle'].append({'class': 'embedded_model_source_path', 'detail': a, 'type': a})
     for a in res.get('alias_bad', []):
         res['oracle'].append({'class': 'minor_version_alias', 'detail': a, 'type': a})
     for tid_, ans in res['models']:
@@ -1408,7 +1457,7 @@ def main(chk: core.Check, replay: typing.Optional[str] = None) -> int:
         'binary16/32, overflow to inf, None -> NaN), law_float_from_int, law_bool_truthiness, law_object_identity, law_ragged_raises, '
         'a[j] = v converts like an element of np.array([v], dtype) and stores in place, a += z wraps; the same-dtype fast path binds the '
         'caller\'s array (no copy)',
-        'library laws of `_MODEL_` (Gen/PyModelAttr.v hypotheses): pickle.loads(<bytes of the _ModelPickler of filter_pickle, protocol 4>) is a model equivalent to m (memoised values are recomputed), gzip.decompress(gzip.compress(b)) == b, '
+        'library laws of `_MODEL_` (Gen/PyModelAttr.v hypotheses): pickle.loads(<bytes of the _ModelPickler of filter_pickle, protocol 4>) is the model m with memoised values reset and every source path replaced by the PurePosixPath relative to the parent of its root namespace directory, gzip.decompress(gzip.compress(b)) == b, '
         'b85decode(b85encode(b)) == b, the base85 alphabet has no white space; adjacent string literals concatenate',
         'extraction: Require Extraction ExtrOcamlBasic only; OCaml 4.13.1; ocaml/c18_driver.ml',
         'tools/harness/c18_impl.py, tools/harness/codec/{astdump,dsdlgen,target_py,target_py_driver}.py, pydsdl 1.25, NumPy from build/pydeps',
@@ -1481,6 +1530,14 @@ def main(chk: core.Check, replay: typing.Optional[str] = None) -> int:
     num_live = bool(witness_num) and chk.is_known(FID_NUM)
     if num_live:
         chk.report_known(FID_NUM)
+    witness_infer = next((r.get('witness_infer') for r in results if r['label'] == 'probe'), None)
+    infer_live = bool(witness_infer) and chk.is_known(FID_INFER)
+    if infer_live:
+        chk.report_known(FID_INFER)
+    if witness_infer and not chk.is_known(FID_INFER):
+        broken.append('witness of %s reproduces (uint64[<=3] = [0, 2**64-1] is rejected) but the finding is not listed as known' % FID_INFER)
+    if witness_infer is not None and tmpl_precheck and ('t_precheck_nd_only := true' in (gt if tmpl_guard is not None else '')) == bool(witness_infer):
+        broken.append('the scanned template says t_precheck_nd_only=%s but uint64[<=3] = [0, 2**64-1] is %s' % (not witness_infer, 'rejected' if witness_infer else 'accepted'))
     witness_fprec = next((r.get('witness_fprec') for r in results if r['label'] == 'probe'), None)
     try:
         gen_text = open(os.path.join(core.COQ, 'theories', 'Generated', 'Gen_PyObj.v'), encoding='utf-8').read()
@@ -1495,7 +1552,7 @@ def main(chk: core.Check, replay: typing.Optional[str] = None) -> int:
         chk.report_known(FID_FPREC)
     for r in results:
         if '_pending' in r:
-            finish_namespace(r, exe, quirk, wrap_live, fprec_live, num_live)
+            finish_namespace(r, exe, quirk, wrap_live, fprec_live, num_live, infer_live)
 
     selftest_bad = float_selftest(exe, chk.rng, 300 if quick else 3000) if exe else []
     if selftest_bad:
